@@ -1842,15 +1842,16 @@ def enum_case(desc, inst_seed, tmp, stats=None):
     return fails
 
 
-def shrink_enum_desc(desc, inst_seed, construct, max_runs=40):
+def shrink_enum_desc(desc, inst_seed, construct, max_runs=40, case_fn=None):
     runs = [0]
     cur = json.loads(json.dumps(desc))
+    case_fn = case_fn or enum_case
 
     def still(d):
         runs[0] += 1
         tmp = tempfile.mkdtemp(prefix='c10l_', dir=scratch())
         try:
-            return any(f['construct'] == construct for f in enum_case(d, inst_seed, tmp))
+            return any(f['construct'] == construct for f in case_fn(d, inst_seed, tmp))
         except Exception:
             return False
         finally:
@@ -1919,6 +1920,226 @@ def enumlit_scenarios(ctx, out):
     out.coverage['enumlit_instance_documents_cross_loaded'] = stats.get('docs', 0)
     out.coverage['enumlit_enum_attribute_values_compared'] = stats.get('enum_values', 0)
     out.coverage['enumlit_repeat_failures_of_a_reported_kind'] = stats.get('repeat_failures', 0)
+
+
+# --------------------------------------------------------------------------- packages that declare the same nsPrefix
+#
+# nsPrefix is only a hint: two packages of one metamodel (a package and its sub-package, two root packages) may declare
+# the same prefix as long as their nsURIs differ, and may hold classes of the same name.  The .ecore trip keeps both, and
+# an instance document must say which package every object's class comes from: objects of sub-package classes in
+# polymorphic containment slots (xsi:type is written there) and as roots load -- against the reloaded metamodel, against
+# an independent copy of the original, and the other way round -- as objects of the very same qualified class.
+
+def _pk(name, uri, prefix):
+    return {'name': name, 'nsURI': uri, 'nsPrefix': prefix, 'annotations': [], 'classifiers': [], 'subpackages': []}
+
+
+def gen_prefix_desc(rng, stats=None):
+    P = rng.choice(['geo', 'geo', 'm', 'geo_1', 'p'])
+    base = 'http://verif/c10/px/' + rng.choice(['a', 'b.c'])
+    uid = [0]
+
+    def own_features(c, points):
+        for _ in range(rng.randint(0, 2)):
+            uid[0] += 1
+            if points and rng.random() < 0.25:
+                c['features'].append(_ref(f'at{uid[0]}', rng.choice(points), upper=rng.choice([1, -1])))
+            else:
+                c['features'].append(_attr(f'z{uid[0]}', rng.choice(['ecore:EInt', 'ecore:EString']),
+                                           upper=rng.choice([1, 1, -1])))
+
+    root = _pk('geo', base + '/1.0', P)
+    shape = _cls('Shape', abstract=rng.random() < 0.5, features=[_attr('name', 'ecore:EString')])
+    point = _cls('Point', supers=['Shape'], features=[_attr('x', 'ecore:EInt'), _attr('y', 'ecore:EInt')])
+    drawing = _cls('Drawing', features=[_ref('shapes', 'Shape', upper=-1, containment=True),
+                                        _ref('origin', 'Shape')])
+    if rng.random() < 0.5:
+        drawing['features'].append(_ref('main', 'Shape', containment=True))
+    if rng.random() < 0.5:
+        drawing['features'].append(_ref('marks', 'Shape', upper=-1))
+    root['classifiers'] += [shape, point, drawing]
+    rng.shuffle(root['classifiers'])
+    roots = [root]
+    pkgs = [(0, '', root)]                   # (root index, path inside that root, description)
+    points = {0: ['Point']}                  # per root: paths of the classes named Point so far ('@k:' for others)
+    shapes = {0: ['Shape', 'Point']}
+    same_prefix = same_name = 0
+
+    def fill(ri, path, d):
+        """classes of a further package: some named like classes of an earlier package"""
+        nonlocal same_name
+
+        def see(k, q):
+            return q if k == ri else f'@{k}:{q}'
+        all_points = [see(k, q) for k, qs in points.items() for q in qs]
+        all_shapes = [see(k, q) for k, qs in shapes.items() for q in qs]
+        names = rng.sample(['Point', 'Point', 'Label', 'Shape', 'Node'], rng.randint(1, 3))
+        for nm in dict.fromkeys(names):
+            sup = rng.choice(all_points if nm == 'Point' and rng.random() < 0.7 else all_shapes)
+            c = _cls(nm, supers=[sup], abstract=rng.random() < 0.1)
+            own_features(c, all_points)
+            d['classifiers'].append(c)
+            q = (path + '/' if path else '') + nm
+            shapes.setdefault(ri, []).append(q)
+            if nm == 'Point':
+                points.setdefault(ri, []).append(q)
+            if nm in ('Point', 'Shape'):
+                same_name += 1
+        if rng.random() < 0.3:
+            c = _cls('Group', supers=[rng.choice(all_shapes)],
+                     features=[_ref('members', rng.choice(all_shapes), upper=-1, containment=True)])
+            d['classifiers'].append(c)
+
+    for i in range(rng.choice([1, 1, 2, 3])):
+        r = rng.random()
+        prefix = P if r < 0.7 else (P + '_1' if r < 0.85 else f'q{i}')
+        same_prefix += prefix == P
+        if rng.random() < 0.25:
+            d = _pk(f'ext{i}', f'{base}/ext{i}', prefix)              # another root package of the same resource
+            roots.append(d)
+            ri, path = len(roots) - 1, ''
+        else:
+            ri, ppath, parent = rng.choice(pkgs)
+            nm = f'v{i + 2}'
+            d = _pk(nm, f'{base}/{i + 2}.0', prefix)
+            parent['subpackages'].append(d)
+            path = (ppath + '/' if ppath else '') + nm
+        fill(ri, path, d)
+        pkgs.append((ri, path, d))
+    if stats is not None:
+        stats['packages_declaring_a_prefix_already_taken'] = stats.get('packages_declaring_a_prefix_already_taken', 0) \
+            + same_prefix
+        stats['classes_named_like_a_class_of_another_package'] = \
+            stats.get('classes_named_like_a_class_of_another_package', 0) + same_name
+        stats['metamodels_with_several_roots'] = stats.get('metamodels_with_several_roots', 0) + (len(roots) > 1)
+    return root if len(roots) == 1 else {'roots': roots}
+
+
+def _count_foreign(dump, home, acc):
+    """objects whose class is not a class of the package named `home` (qualified name with a '/'): [contained, roots]"""
+    def walk(o, depth):
+        cls = o['class'].split('#', 1)[1]
+        if '/' in cls or not o['class'].startswith(home):
+            acc[0 if depth else 1] += 1
+        for kids in o['kids'].values():
+            for x in kids:
+                walk(x, depth + 1)
+    for o in dump:
+        walk(o, 0)
+
+
+def cross_load(src_mm, dst_mm, seed, tag, tmp, fails, stats=None, nper=2):
+    """a model over src_mm, saved against src_mm, loaded against dst_mm: the canonical dump of the model that was saved
+    (classes by qualified package path)"""
+    from pyecore.resources import URI
+    try:
+        roots = gen_instances(src_mm, random.Random(seed), nper=nper)
+    except Exception as e:
+        fails.append({'construct': f'instantiate-{tag}', 'what': f'{type(e).__name__}: {e}'[:300]})
+        return
+    if not roots:
+        return
+    ipath = os.path.join(tmp, f'inst_{tag}.xmi')
+    rs = fresh_rset()
+    register(rs, src_mm)
+    res = rs.create_resource(URI(ipath))
+    res.extend(roots)
+    want = dump_model(roots)
+    try:
+        res.save()
+        rs1 = fresh_rset()
+        register(rs1, dst_mm)
+        got = dump_model(list(rs1.get_resource(URI(ipath)).contents))
+    except Exception as e:
+        got = ('raises', f'{type(e).__name__}: {e}'[:200])
+    if stats is not None:
+        stats['docs'] = stats.get('docs', 0) + 1
+        stats['objects'] = stats.get('objects', 0) + _count_objs(want)
+        acc = [0, 0]
+        _count_foreign(want, qname(src_mm[0]).split('#')[0] + '#', acc)
+        stats['contained_objects_of_a_further_package'] = stats.get('contained_objects_of_a_further_package', 0) + acc[0]
+        stats['root_objects_of_a_further_package'] = stats.get('root_objects_of_a_further_package', 0) + acc[1]
+    if got != want:
+        a, b = tag.split('-to-')
+        fails.append({'construct': f'cross-load-{tag}',
+                      'what': f'model saved against the {a} metamodel, loaded against the {b} one, is not the model '
+                              f'that was saved: ' + _first_dump_diff(want, got)})
+
+
+def prefix_case(desc, inst_seed, tmp, stats=None):
+    """-> list of {'construct','what'}"""
+    fails = []
+    os.makedirs(tmp, exist_ok=True)
+    orig = build(desc)
+    sig0 = signature_all(orig)
+    try:
+        reloaded, path = save_reload(orig, tmp)
+    except Exception as e:
+        return [{'construct': 'save-or-load-raises', 'what': f'{type(e).__name__}: {e}'[:300]}]
+    diffs = sig_diff(sig0, signature_all(reloaded))
+    if diffs:
+        lab, pair, p, a, b = diffs[0]
+        fails.append({'construct': 'signature-' + lab,
+                      'what': f'{pair[0]}.{pair[1]} at {p}: original {a} / reloaded {b} ({len(diffs)} place(s))'})
+    probs = check_instantiable(reloaded, random.Random(inst_seed))
+    if probs:
+        fails.append({'construct': 'instantiate', 'what': '; '.join(probs[:3])})
+    cross_load(orig, reloaded, inst_seed, 'original-to-reloaded', tmp, fails, stats)
+    cross_load(orig, build(desc), inst_seed + 2, 'original-to-original', tmp, fails, stats)
+    cross_load(reloaded, build(desc), inst_seed + 1, 'reloaded-to-original', tmp, fails, stats)
+    return fails
+
+
+def nsprefix_scenarios(ctx, out):
+    """Scenario family 'nsprefix' (own PRNG stream)."""
+    ecore()
+    rng = common.rng_for(ctx.seed, 'C10:nsprefix')
+    thorough = ctx.tier == 'thorough'
+    n = 1500 if thorough else 200
+    hard_stop = time.time() + (120 if thorough else 30)       # safety net only; the count decides
+    stats, kinds, seen = {}, {}, {}
+    cases = 0
+    tmp_root = tempfile.mkdtemp(prefix='c10n_', dir=scratch())
+    try:
+        for i in range(n):
+            if time.time() > hard_stop:
+                break
+            desc = gen_prefix_desc(rng, kinds)
+            inst_seed = rng.randrange(1 << 30)
+            tmp = os.path.join(tmp_root, f'n{i}')
+            try:
+                fails = prefix_case(desc, inst_seed, tmp, stats)
+            finally:
+                shutil.rmtree(tmp, ignore_errors=True)
+            cases += 1
+            for f in fails:
+                if f['construct'] in seen:
+                    stats['repeat_failures'] = stats.get('repeat_failures', 0) + 1
+                    continue
+                seen[f['construct']] = True
+                small = shrink_enum_desc(desc, inst_seed, f['construct'], max_runs=120 if thorough else 45,
+                                         case_fn=prefix_case)
+                tmp = tempfile.mkdtemp(prefix='c10n_', dir=scratch())
+                try:
+                    again = [g for g in prefix_case(small, inst_seed, tmp) if g['construct'] == f['construct']]
+                finally:
+                    shutil.rmtree(tmp, ignore_errors=True)
+                what = again[0]['what'] if again else f['what']
+                out.fail({'property': 'C10', 'clause': 'equal-nsPrefix', 'construct': f['construct']},
+                         f'equal-nsPrefix/{f["construct"]}: {what}',
+                         {'scenario': 'nsprefix', 'seed': ctx.seed, 'tier': ctx.tier, 'index': i,
+                          'desc': small if again else desc, 'inst_seed': inst_seed,
+                          'history': [['prefix-metamodel', i], ['check', f['construct']]]})
+    finally:
+        shutil.rmtree(tmp_root, ignore_errors=True)
+    out.coverage['nsprefix_cases'] = cases
+    out.coverage['nsprefix_metamodels'] = dict(sorted(kinds.items()))
+    out.coverage['nsprefix_instance_documents_cross_loaded'] = stats.get('docs', 0)
+    out.coverage['nsprefix_instance_objects'] = stats.get('objects', 0)
+    out.coverage['nsprefix_contained_objects_of_a_further_package'] = \
+        stats.get('contained_objects_of_a_further_package', 0)
+    out.coverage['nsprefix_root_objects_of_a_further_package'] = stats.get('root_objects_of_a_further_package', 0)
+    out.coverage['nsprefix_repeat_failures_of_a_reported_kind'] = stats.get('repeat_failures', 0)
 
 
 # --------------------------------------------------------------------------- run / replay
@@ -2125,9 +2346,10 @@ def run(ctx, out):
         'time_budget_s': budget,
     })
     # --- scenario families with their own PRNG streams (replayed through common.scenario_replay)
-    for fam in (resave_scenarios, enumlit_scenarios):
+    for fam in (resave_scenarios, enumlit_scenarios, nsprefix_scenarios):
         fam(ctx, out)
-    out.coverage['evaluations'] += out.coverage.get('resave_cases', 0) + out.coverage.get('enumlit_cases', 0)
+    out.coverage['evaluations'] += out.coverage.get('resave_cases', 0) + out.coverage.get('enumlit_cases', 0) \
+        + out.coverage.get('nsprefix_cases', 0)
     out.coverage['rule'] += ('; plus one edit-and-resave case (a generated metamodel edited by a random refactoring '
                              'history and saved 3-4 times through one resource object, each save reloaded and compared) '
                              'and one enumeration case (literals with display strings: .ecore trip, instance documents '
@@ -2154,7 +2376,8 @@ def replay(ctx, rep):
     case = rep['case']
     sig = rep.get('signature', {})
     if case.get('scenario'):
-        return common.scenario_replay(ctx, rep, {'resave': resave_scenarios, 'enumlit': enumlit_scenarios})
+        return common.scenario_replay(ctx, rep, {'resave': resave_scenarios, 'enumlit': enumlit_scenarios,
+                                                'nsprefix': nsprefix_scenarios})
     tmp = tempfile.mkdtemp(prefix='c10p_', dir=scratch())
     try:
         if case.get('kind') == 'corpus':
